@@ -53,14 +53,20 @@ def proceed_shape(repo):
     regs = [c for c in ast.walk(loop) if isinstance(c, ast.Call) and norm(c.func) == f"{itor}.register"]
 
     def xconds(n):
-        """conds() with once-assigned locals expanded inside disjunctions/atoms (is_template -> acc.template)."""
+        """conds() in which a local that was read from `<acc>.template` earlier in the same iteration stands for that
+        read (is_template -> acc.template): the flag of the accumulator as it was before any fork."""
+        reads = {}
+        for a in ast.walk(loop):
+            if isinstance(a, ast.Assign) and len(a.targets) == 1 and isinstance(a.targets[0], ast.Name) and norm(a.value) == f"{acc}.template":
+                reads.setdefault(a.targets[0].id, []).append(a)
         out = []
         for c in conds(n, loop):
-            try:
-                parts = [expand(ast.parse(x, mode="eval").body, pr.node) for x in c.split(" or ")]
-                out.append(" or ".join(sorted(parts)))
-            except SyntaxError:
-                out.append(c)
+            parts = []
+            for x in c.split(" or "):
+                if x in reads and len(reads[x]) == 1 and order(reads[x][0]) < order(n) and not any(order(reads[x][0]) < order(f) < order(n) for f in forks if f is not n):
+                    x = f"{acc}.template"
+                parts.append(x)
+            out.append(" or ".join(sorted(parts)))
         return out
     return SimpleNamespace(pr=pr, loop=loop, sel=sel, acc=acc, fn=fnparam, inner=inner, itor=itor, fitvar=fitvar, fit_lit=f"{fitvar} is not False", keeps=keeps,
                            child_loops=child_loops, pushes=pushes, others=others, inits=inits, itor_defs=itor_defs, forks=forks, regs=regs, ret=r, xconds=xconds)
